@@ -6,7 +6,9 @@
 (* RFC 9112 6.3 (none / Content-Length in three spellings / chunked with extensions, odd spellings,        *)
 (* trailers, one or several chunks / close-delimited), every class of invalid length information, streams  *)
 (* that exceed the caps, interim 1xx heads, surplus bytes, truncations followed by the peer's close and    *)
-(* pipelines of requests.  The reachable initial states of this specification ARE the cases that           *)
+(* pipelines of requests; messages whose image is dominated by octets that never become payload (a long    *)
+(* header field, chunk extension, last-chunk extension, trailer field: BigForms) just under and over the   *)
+(* caps.  The reachable initial states of this specification ARE the cases that           *)
 (* checks/C15.py renders to bytes and executes on the real code (exported by GenCases below).              *)
 (*                                                                                                        *)
 (* SEGMENTATIONS.  The arrival position `arr` counts half lexemes: lexemes 1..arr \div 2 have arrived      *)
@@ -30,7 +32,10 @@ CONSTANTS Side,        \* "req": requests arriving at the server, "resp": respon
           Dev_TrailerLeavesCrlf,         \* F-15c  a chunked body ends at the first CRLF after the last-chunk
           Dev_LenientContentLength,      \* F-15d  stoull, last Content-Length wins, CL+TE accepted, "chunked" anywhere
           Dev_BadChunkSizeWaitsForever,  \* F-15e  an unparsable chunk size is "need more data"
-          Dev_LenientChunkSize           \* F-15d' stoul accepts "0x3", "-3"
+          Dev_LenientChunkSize,          \* F-15d' stoul accepts "0x3", "-3"
+          Dev_CapSkipsFraming,           \* (class of seeded changes) client: once the body is known to be chunked the cap counts
+                                         \*   head + decoded payload only - size lines, extensions, trailers escape it
+          Dev_NoHeadCap                  \* (class of seeded changes) server: the head is not held against MAX_HEADER_SIZE
 
 \* ============================================================================================ generator
 L1(x) == << x >>
@@ -84,6 +89,20 @@ CapForms(side) ==
       Form(L1(<<"TE", 1>>), L1(<<"LAST", 0>>) \o L1(<<"FLOOD", 0>>)) }   \* a trailer section that never ends
     \cup (IF side = "resp" THEN { Form(<<>>, L1(<<"FLOOD", 0>>)) } ELSE {})    \* close-delimited body without end
 
+\* ---- BOUNDED: which octets count against which cap.  One big lexeme per category (header field / chunk extension /
+\* last-chunk extension / trailer field) of 3 quarters of the cap (fits: an ordinary valid message) and of 5 quarters
+\* (over the cap although the payload is one octet), and two categories that fit one by one but (client: one cap for
+\* everything; server: head cap and buffer cap) not together.
+BigOr0(w) == IF w > 0 THEN BigBase + w ELSE 0
+BigForm(hw, cw, lw, tw) ==
+    Form((IF hw > 0 THEN L1(<<"HDR", BigBase + hw>>) ELSE <<>>) \o L1(<<"TE", 1>>),
+         OneChunk(<<1>>, BigOr0(cw)) \o ChunkTail(BigOr0(lw), IF tw > 0 THEN L1(<<"TRL", BigBase + tw>>) ELSE T0))
+BigWeights == { <<3, 0, 0, 0>>, <<5, 0, 0, 0>>, <<0, 3, 0, 0>>, <<0, 5, 0, 0>>, <<0, 0, 3, 0>>, <<0, 0, 5, 0>>,
+                <<0, 0, 0, 3>>, <<0, 0, 0, 5>>,
+                <<3, 3, 0, 0>>, <<3, 0, 0, 3>>, <<0, 3, 0, 3>>, <<0, 3, 3, 0>>, <<0, 0, 3, 3>> }
+BigForms == { BigForm(p[1], p[2], p[3], p[4]) : p \in BigWeights }
+            \cup { Form(<< <<"HDR", BigBase + w>>, <<"CL", 1>> >>, DataLex(<<1>>)) : w \in {3, 5} }
+
 Bodies == IF Rich THEN { <<>>, <<1>>, <<2>>, <<1, 2>>, <<3>>, <<2, 3>> } ELSE { <<>>, <<1>>, <<1, 2>>, <<3>> }
 PipeBodies == IF Rich THEN { <<>>, <<1, 2>>, <<3>> } ELSE { <<1, 2>> }
 Extras(side) == { <<>>, L1(<<"HDR", 1>>), L1(<<"HDR", 2>>) } \cup (IF side = "resp" THEN { L1(<<"CONN", 1>>) } ELSE {})
@@ -92,7 +111,7 @@ BaseForms(side, B) == { Form(L1(<<"CL", NBytes(B)>>), DataLex(B)), ChunkedForm(B
 \* ---- requests
 ReqMsg(k, x, f) == L1(<<"REQ", 10 * k + (IF f.h = <<>> /\ f.b = <<>> THEN 1 ELSE 2)>>) \o x \o f.h \o L1(EOH) \o f.b
 ReqSingleForms ==
-    UNION { ValidForms("req", B) \cup InvalidForms("req", B) : B \in Bodies } \cup CapForms("req")
+    UNION { ValidForms("req", B) \cup InvalidForms("req", B) : B \in Bodies } \cup CapForms("req") \cup BigForms
 \* the forms that follow or precede another request in a pipeline
 ReqPipeForms ==
     UNION { { Form(<<>>, <<>>), Form(L1(<<"CL", NBytes(B)>>), DataLex(B)), Form(L1(<<"CL", 0>>), <<>>),
@@ -126,7 +145,7 @@ Surplus == << <<"RESP", 200>>, <<"CL", 1>>, EOH, <<"DATA", 1>> >>
 RespSuffixes == { <<>>, L1(<<"EOF", 0>>), Surplus }
 RespFinals ==     \* [rm, s]
     { [rm |-> "GET", s |-> RespMsg(200, <<>>, f)] :
-          f \in UNION { ValidForms("resp", B) \cup InvalidForms("resp", B) : B \in Bodies } \cup CapForms("resp") }
+          f \in UNION { ValidForms("resp", B) \cup InvalidForms("resp", B) : B \in Bodies } \cup CapForms("resp") \cup BigForms }
     \cup { [rm |-> "GET", s |-> RespMsg(404, x, f)] : x \in Extras("resp") \ {<<>>}, f \in UNION { BaseForms("resp", B) : B \in {<<>>, <<1, 2>>} } }
     \cup { [rm |-> "GET", s |-> RespMsg(st, <<>>, Form(h, <<>>))] : st \in {204, 304}, h \in { <<>>, L1(<<"CL", 3>>), L1(<<"TE", 1>>) } }
     \cup { [rm |-> "HEAD", s |-> RespMsg(200, <<>>, Form(h, <<>>))] :
@@ -180,6 +199,20 @@ EofIdx == LET E == {k \in 1..LenS : Kind(s[k]) = "EOF"} IN IF E = {} THEN 0 ELSE
 LastData == IF EofIdx # 0 THEN 2 * (EofIdx - 1) ELSE 2 * LenS     \* the close itself carries no octets
 FloodArrived(p) == \E j \in (base + 1)..(p \div 2) : Kind(s[j]) = "FLOOD"
 GiveUp == out' = Append(out, Reject) /\ closed' = TRUE
+
+\* ---- what the cap checks of the code count (quarters of the cap, HttpAbs.tla).  Client: every octet appended to the raw
+\* accumulation buffer (interim responses already erased do not count any more).  Server: every octet in the session
+\* buffer against MAX_BUFFER_SIZE (the head, at most 1/16 of it, is neglected), the head against MAX_HEADER_SIZE in SrvScan.
+RECURSIVE SumF(_, _, _)
+SumF(f, a, b) == IF a > b THEN 0 ELSE f[a] + SumF(f, a + 1, b)
+TrueCounts == [k \in 1..LenS |-> IF c.side = "req" /\ Kind(s[k]) = "HDR" THEN 0 ELSE Wt(s[k])]
+Counted == [k \in 1..LenS |->
+              IF c.side = "resp" /\ Dev_CapSkipsFraming /\ hdone /\ mode = "chunked" /\ k > hend THEN 0 ELSE TrueCounts[k]]
+\* does the check that follows a read up to position p see more than the cap?  A big lexeme that has arrived partially
+\* may or may not tip it.
+OverAt(p) == LET full == SumF(Counted, base + 1, p \div 2)
+                 part == IF p % 2 = 1 THEN Counted[(p \div 2) + 1] ELSE 0 IN
+             IF full > CapQ THEN {TRUE} ELSE IF full + part > CapQ THEN {TRUE, FALSE} ELSE {FALSE}
 Deliver(m) == out' = Append(out, m)
 
 \* ---------------------------------------------------------------------------------------- server
@@ -187,9 +220,10 @@ Deliver(m) == out' = Append(out, m)
 SrvRecv(p) ==
     /\ c.side = "req" /\ pc = "idle" /\ p \in (arr + 1)..(2 * LenS) /\ (p = 2 * LenS \/ ncuts < MaxCuts)
     /\ arr' = p /\ ncuts' = IF p < 2 * LenS THEN ncuts + 1 ELSE ncuts
-    /\ IF closed THEN UNCHANGED <<pc, out, closed>>
-       ELSE IF FloodArrived(p) THEN GiveUp /\ UNCHANGED pc
-       ELSE pc' = "scan" /\ UNCHANGED <<out, closed>>
+    /\ \E ov \in OverAt(p) :
+         IF closed THEN UNCHANGED <<pc, out, closed>>
+         ELSE IF FloodArrived(p) \/ ov THEN GiveUp /\ UNCHANGED pc
+         ELSE pc' = "scan" /\ UNCHANGED <<out, closed>>
     /\ UNCHANGED <<c, base, hend, cpos, cbody, hdone, mode, fn>>
 
 \* the length decision as the code took it before the repair (stoull, last Content-Length wins, "chunked" anywhere)
@@ -217,6 +251,8 @@ SrvScan ==
             ELSE GiveUp /\ pc' = "idle" /\ UNCHANGED <<base, hend, cpos, cbody>>
        ELSE LET he == HdrEnd(s, avail, base + 2) IN
             IF he = 0 THEN pc' = "idle" /\ UNCHANGED <<base, hend, cpos, cbody, out, closed>>
+            ELSE IF ~Dev_NoHeadCap /\ HeadOver(s, base + 1, he)        \* headerEnd > MAX_HEADER_SIZE
+                 THEN GiveUp /\ pc' = "idle" /\ UNCHANGED <<base, hend, cpos, cbody>>
             ELSE LET H == SubSeq(s, base + 2, he - 1) IN
                  IF \E k \in DOMAIN H : Kind(H[k]) \notin HdrKinds
                  THEN GiveUp /\ pc' = "idle" /\ UNCHANGED <<base, hend, cpos, cbody>>
@@ -278,7 +314,8 @@ CliLive == c.side = "resp" /\ ~closed /\ pc # "done"
 CliRecv(p) ==
     /\ CliLive /\ pc = "idle" /\ p \in (arr + 1)..LastData /\ (p = LastData \/ ncuts < MaxCuts)
     /\ arr' = p /\ ncuts' = IF p < LastData THEN ncuts + 1 ELSE ncuts
-    /\ IF FloodArrived(p) THEN GiveUp /\ UNCHANGED pc ELSE pc' = "frame" /\ UNCHANGED <<out, closed>>
+    /\ \E ov \in OverAt(p) :
+         IF FloodArrived(p) \/ ov THEN GiveUp /\ UNCHANGED pc ELSE pc' = "frame" /\ UNCHANGED <<out, closed>>
     /\ UNCHANGED <<c, base, hend, cpos, cbody, hdone, mode, fn>>
 
 \* receiveSync reports PeerClosed (after everything buffered was drained)
@@ -340,23 +377,27 @@ Spec == Init /\ [][Next]_vars
 
 \* ============================================================================================ the property
 Exp == Expected(c)
-Need == IF LastT(Exp) \in {"any", "stall", "msgopt"} THEN Len(Exp) - 1 ELSE Len(Exp)
+Need == IF LastT(Exp) \in {"any", "stall", "msgopt", "over"} THEN Len(Exp) - 1 ELSE Len(Exp)
 SameM(a, b) == a.start = b.start /\ a.hdrs = b.hdrs /\ a.body = b.body
 Same(a, b) == a.t = b.t /\ SameM(a, b)
 \* whatever has been handed over so far is exactly what was encoded, in every state of every segmentation
 Exact == \A k \in 1..Len(out) :
             IF k <= Need THEN Same(out[k], Exp[k])
             ELSE \/ LastT(Exp) = "any"
-                 \/ LastT(Exp) = "stall" /\ k = Len(Exp) /\ out[k].t = "reject"
+                 \/ LastT(Exp) \in {"stall", "over"} /\ k = Len(Exp) /\ out[k].t = "reject"
                  \/ LastT(Exp) = "msgopt" /\ k = Len(Exp) /\ (out[k].t = "reject" \/ (out[k].t = "msg" /\ SameM(out[k], Exp[k])))
                  \/ LastT(Exp) = "msgopt" /\ k > Len(Exp) /\ out[Len(Exp)].t = "msg"
 Quiescent == \/ arr = 2 * LenS /\ pc \in {"idle", "done"}
              \/ c.side = "resp" /\ (closed \/ pc = "done")
 \* ... and once the whole stream has arrived nothing is missing (with Exact: independent of the cuts), invalid
 \* length information has been rejected, the caps have been enforced
-Complete == Quiescent => Len(out) >= Need
+Complete == Quiescent => (Len(out) >= Need /\ (LastT(Exp) = "over" => closed))
 \* termination: no framing call stays in its loop
 Terminates == pc # "spin"
 \* buffered bytes never exceed the cap: a stream that is longer than the cap has been given up when it has arrived
-Bounded == (pc \in {"idle", "done"} /\ \E j \in (base + 1)..avail : Kind(s[j]) = "FLOOD") => closed
+\* - and likewise when what sits in the buffer weighs more than the cap, whatever those octets encode
+BufOver == \/ SumF(TrueCounts, base + 1, avail) > CapQ
+           \/ /\ c.side = "req" /\ base + 1 <= avail /\ Kind(s[base + 1]) = "REQ"
+              /\ LET he == HdrEnd(s, avail, base + 2) IN he # 0 /\ HeadOver(s, base + 1, he)
+Bounded == (pc \in {"idle", "done"} /\ (BufOver \/ \E j \in (base + 1)..avail : Kind(s[j]) = "FLOOD")) => closed
 ==============================================================================
